@@ -362,6 +362,11 @@ class Engine:
         if st.pc is False:
             return
         self.obls.append(Obligation(kind, ident, st.pc, cond, where))
+        # opt-in (registry symex={'assume_no_ub': True}): executions that went through undefined behaviour are
+        # reported by the 'ub' obligation above and excluded from the later obligations of the same path
+        # (the Int encoding and the machine disagree past a signed overflow: such models would not replay)
+        if kind == 'ub' and self.opts.get('assume_no_ub') and isinstance(cond, z3.ExprRef):
+            st.pc = p_and(st.pc, cond)
 
     def feasible(self, pc):
         if pc is True:
@@ -784,6 +789,14 @@ class Engine:
                 return self.ptr_add(b, a)
             if op == 'sub' and isinstance(a, (Ptr, PIte)) and not isinstance(b, (Ptr, PIte)):
                 return self.ptr_add(a, -b if isinstance(b, int) else -b)
+            if (op == 'sub' and isinstance(a, Ptr) and isinstance(b, Ptr) and isinstance(a.obj, int) and isinstance(b.obj, int)
+                    and a.obj != b.obj):
+                # difference of addresses of two distinct objects: undefined in C++ ([expr.add]) and not a
+                # value of the program's data; reported (replayed under the sanitizers), path ends
+                self.oblige(st, 'ub', 'difference of pointers into two different objects (%s, %s)' % (
+                    st.mem[a.obj].name if a.obj in st.mem else a.obj, st.mem[b.obj].name if b.obj in st.mem else b.obj), False, where)
+                st.pc = False
+                return UNDEF
             raise Unsupported('integer op %s on pointer values' % op)
         conc = isinstance(a, int) and isinstance(b, int)
         if op in ('add', 'sub', 'mul'):
@@ -872,8 +885,30 @@ class Engine:
                     return x
                 if op == 'and' and c == 0:
                     return 0
+                if op == 'or' and c > 0 and isinstance(x, z3.ExprRef) and self.mult_of(x, 1 << c.bit_length()):
+                    # `2*i | 1`: the low bits of x are zero, so or == add (clang's rewrite of 2*i+1)
+                    return self.simp(zint(x) + c)
             raise Unsupported('bitwise %s on symbolic integers' % op)
         raise Unsupported('binop ' + op)
+
+    def mult_of(self, x, m, depth=0):
+        """syntactic proof that the Int term x is a multiple of m (a power of two)."""
+        if isinstance(x, int):
+            return x % m == 0
+        if not isinstance(x, z3.ExprRef) or not x.is_int() or depth > 12:
+            return False
+        if z3.is_int_value(x):
+            return x.as_long() % m == 0
+        if not z3.is_app(x):
+            return False
+        k = x.decl().kind()
+        if k == z3.Z3_OP_MUL:
+            return any(self.mult_of(x.arg(i), m, depth + 1) for i in range(x.num_args()))
+        if k in (z3.Z3_OP_ADD, z3.Z3_OP_SUB):
+            return all(self.mult_of(x.arg(i), m, depth + 1) for i in range(x.num_args()))
+        if k == z3.Z3_OP_ITE:
+            return self.mult_of(x.arg(1), m, depth + 1) and self.mult_of(x.arg(2), m, depth + 1)
+        return False
 
     # ---- exactness bridge: integrality + magnitude tracking of real-valued terms (sound abstract
     # interpretation; a +,-,* whose operands are integers and whose result is below 2^53 is exact in IEEE)
@@ -1205,7 +1240,14 @@ class Engine:
         if base in ('smax', 'smin', 'umax', 'umin'):
             a, b = args
             if base[0] == 'u':
-                raise Unsupported('umax/umin')
+                # unsigned comparison of the two bit patterns; the chosen operand is returned unchanged
+                if t is None or t.kind != 'int' or isinstance(a, (Ptr, PIte, bool)) or isinstance(b, (Ptr, PIte, bool)):
+                    raise Unsupported('umax/umin on non-integer operands')
+                if isinstance(a, int) and isinstance(b, int):
+                    a_gt = self.to_unsigned(a, t.bits) > self.to_unsigned(b, t.bits)
+                    return (a if a_gt else b) if base == 'umax' else (b if a_gt else a)
+                a_gt = self.to_unsigned(zint(a), t.bits) > self.to_unsigned(zint(b), t.bits)
+                return z3.If(a_gt, zint(a), zint(b)) if base == 'umax' else z3.If(a_gt, zint(b), zint(a))
             if isinstance(a, int) and isinstance(b, int):
                 return max(a, b) if base == 'smax' else min(a, b)
             c = zint(a) > zint(b)
